@@ -418,6 +418,55 @@ def _run(t: str, s: int) -> Result:
         rc_lines = {l["case"]: l for l in rc_all}
         rc_states = (st_c, tr_c)
 
+    # ---- stage E: arbitrary finite doubles (outside the model's value domain): C vs LLVM, bit for bit --------------------
+    float_tasks, float_meta = [], {}
+    FLOATS = [0.1, -0.3, 1e-3, 3.7e5, 2.0 / 3.0, -1.25e-7, 12345.678, 1e10, -7.0, 0.5]
+    for ki, (k, cap, group) in enumerate(kernel_list):
+        if group in ("broadcast-target",) or ki in faulty_kernels or ki % (2 * P["c_fraction"]) != 0:
+            continue
+        fu = exprs.first_use(k.asg)
+        inputs = []
+        for dims, content in input_sets(k.asg, rng, 3):
+            fid = len(float_meta) + 1
+            tensors = {}
+            for nm in fu:
+                dims_t = [dims[i] for i in fu[nm]]
+                pk = _py_pack(content[nm], kernels.fmt_record(k.formats[nm]), dims_t)
+                pk["vals"] = [rng.choice(FLOATS) * (1 + j) for j in range(len(pk["vals"]))]
+                tensors[nm] = {"fmt": kernels.fmt_record(k.formats[nm]), "dims": dims_t, **pk}
+            float_meta[fid] = {"kernel": ki, "dims": dims, "tensors": tensors}
+            inputs.append({"cid": fid, "tensors": tensors})
+        for backend in ("llvm", "cffi"):
+            float_tasks.append({"id": f"f{ki}:{backend}", "op": "eval_batch", "text": k.text, "formats": k.formats, "cap": cap,
+                                "backend": backend, "inputs": inputs})
+    fnat = pool.run(float_tasks) if float_tasks else {}
+    float_bad, float_compared = [], 0
+    import struct as _struct
+
+    by_kernel = {}
+    for tid, r in fnat.items():
+        ki, backend = tid[1:].split(":")
+        by_kernel.setdefault(int(ki), {})[backend] = r
+    for ki, pair in by_kernel.items():
+        k, cap, group = kernel_list[ki]
+        a, b = pair.get("llvm", {}), pair.get("cffi", {})
+        if "outs" not in a or "outs" not in b:
+            if a.get("crashed") or b.get("crashed"):
+                float_bad.append({"kernel": ki, "text": k.text, "formats": k.formats, "cap": cap, "group": group, "dims": None,
+                                  "what": "crashed-on-float-inputs"})
+            continue
+        for oa, ob in zip(a["outs"], b["outs"]):
+            if "out" not in oa or "out" not in ob:
+                continue
+            float_compared += 1
+            bits_a = [_struct.pack("<d", x) for x in oa["out"]["vals"]]
+            bits_b = [_struct.pack("<d", x) for x in ob["out"]["vals"]]
+            if oa["out"]["levels"] != ob["out"]["levels"] or bits_a != bits_b:
+                fm = float_meta[oa["cid"]]
+                float_bad.append({"kernel": ki, "text": k.text, "formats": k.formats, "cap": cap, "group": group,
+                                  "dims": fm["dims"], "content": fm["tensors"], "what": "c-vs-llvm-bits-differ",
+                                  "out": {"llvm": oa["out"], "c": ob["out"]}})
+
     # ---- stage D: every native crash / exception of the wide pass is taken back to the machine ----------------------
     confirm = []
     if wide_bad:
@@ -461,5 +510,6 @@ def _run(t: str, s: int) -> Result:
         states=ra.distinct + rc_states[0] + states_gen, transitions=ra.generated + rc_states[1] + trans_gen, depth=ra.depth,
         exhaustive_input_kernels=len(gen_cases), exhaustive_input_behaviours=gen_expected,
         coverage=ra.coverage, records=records, traces=traces, wide_bad=wide_bad, chain_bad=chain_bad, chained=chained,
+        float_bad=float_bad, float_compared=float_compared,
         native_tasks=len(tasks), wide_tasks=len(wide_tasks),
     )
